@@ -98,6 +98,7 @@ def plan_for(prop, tier):
                 dict(kind="worker", name="cross-product", variant="asan", part="cross", runs=-1, block=500, hash_mod=50, key_mod=1),
                 dict(kind="worker", name="random-worlds", variant="asan", part="random", runs=40000 if q else 2000000, block=1000, hash_mod=50, key_mod=1 if q else 16),
                 dict(kind="worker", name="faulted-worlds", variant="asan", part="faulted", runs=150000 if q else 6000000, block=1000, hash_mod=50, key_mod=1 if q else 16),
+                dict(kind="worker", name="platform-fallback-worlds", variant="asan", part="platform", runs=30000 if q else 1500000, block=1000, hash_mod=50, key_mod=1 if q else 16),
             ])
     if prop == "C12":
         return dict(
